@@ -69,6 +69,7 @@ Definition tr_call (a b : Z) (c : call Q) : call Q :=
   | Fit y x f => Fit (tr_ydata a b y) x f
   | Update y _ => Update (tr_ydata a b y) None     (* TransformedTargetForecaster.update drops X *)
   | Predict f x => Predict f x
+  | FitP y x f p => FitP (tr_ydata a b y) x f p
   end.
 Definition respond8 (f : fc8) (h : list (call Q)) : ydata :=
   match f with
@@ -143,7 +144,7 @@ Definition check (c : case) : bool :=
            | c0 :: _ =>
                let t' := mktuner Q (list pset)
                            (mksearch (s_means s) (s_ranks s) bi (s_best_score s)
-                                     (nth (Z.to_nat bi) cands c0))
+                                     (nth (Z.to_nat bi) cands c0) cands)
                            (tn_refit _ _ t) (tn_calls _ _ t) in
                answers_agree (tuner_run Q fc8 (list pset) apply8 respond8 cutoff8 base t' script)
                              (im_answers im)
